@@ -1,7 +1,7 @@
 #!/bin/bash
 # usage: seed_confirm.sh <PID> <k> : confirm agent mutant /tmp/mut/<PID>/out/m<k>.{diff,md} + m<k>_demo_test.go in a scratch worktree
 # and store it under /verif/seeded/<PID>-m<k>/ . The scratch worktree is /tmp/mut/port (outside /repo and /verif).
-PID=$1; K=$2; SRC=/tmp/mut/$PID/out; W=/tmp/mut/port
+PID=$1; K=$2; BASE=${SRCBASE:-/tmp/mut}; TAG=${SEEDTAG:-m}; SRC=$BASE/$PID/out; W=/tmp/mut/port
 export GOFLAGS=-mod=mod GOPROXY=off GOSUMDB=off GOTOOLCHAIN=local
 cd $W && git checkout -q --detach main && git checkout -q -- . && git clean -fdq
 D=$SRC/m$K.diff; [ -f $SRC/m$K.ported.diff ] && D=$SRC/m$K.ported.diff
@@ -18,17 +18,17 @@ git checkout -q -- .
 go test -vet=off -count=1 -run "^($TESTS)\$" ./$PKGDIR > /var/tmp/seed.without.log 2>&1; WITHOUT=$?
 rm -f $W/$PKGDIR/zz_demo_test.go
 if [ $WITH -eq 0 ] || [ $WITHOUT -ne 0 ]; then echo "$PID m$K: demo with=$WITH without=$WITHOUT (need with!=0, without=0)"; exit 1; fi
-O=/verif/seeded/$PID-m$K; mkdir -p $O
+O=/verif/seeded/$PID-$TAG$K; mkdir -p $O
 cp /var/tmp/seed.$PID.$K.diff $O/patch.diff; cp $DEMO $O/demo_test.go; cp $SRC/m$K.md $O/notes.md
-python3 - "$PID" "$K" "$TESTS" "$PKGDIR" <<'PY'
+python3 - "$PID" "$TAG$K" "$TESTS" "$PKGDIR" <<'PY'
 import json,sys,subprocess
 pid,k,tests,pkg=sys.argv[1:5]
 head=subprocess.run(["git","-C","/repo","rev-parse","--short","HEAD"],capture_output=True,text=True).stdout.strip()
-md=open('/verif/seeded/%s-m%s/notes.md'%(pid,k)).read()
+md=open('/verif/seeded/%s-%s/notes.md'%(pid,k)).read()
 meta={"property":pid,"source":"independent sub-agent given only the property text and a scratch worktree","applies_to_repo_commit":head,
  "needs_to_manifest":"see notes.md","confirmed":{"worktree":"/tmp/mut/port (scratch, removed afterwards)",
    "existing_suite_with_patch":"go test -vet=off -count=1 . ./context : pass","demo_with_patch":"go test -run '^(%s)$' ./%s : FAIL"%(tests,pkg),"demo_without_patch":"same command : pass"},
  "demo_package_dir":pkg}
-json.dump(meta,open('/verif/seeded/%s-m%s/meta.json'%(pid,k),'w'),indent=1)
+json.dump(meta,open('/verif/seeded/%s-%s/meta.json'%(pid,k),'w'),indent=1)
 PY
 echo "$PID m$K: confirmed"
